@@ -694,7 +694,8 @@ func (c *Client) handleAgentCallback(event Event) { //nolint:cyclop
 	)
 	// Starting client transaction.
 	if startErr := c.start(transaction); startErr != nil {
-		c.delete(id)
+		// Not registered: whatever is in the table under this ID now (a new
+		// transaction started with the same ID meanwhile) is not ours to remove.
 		event.Error = startErr
 		transaction.handle(event)
 		putClientTransaction(transaction)
